@@ -100,7 +100,10 @@ func NewHTTPReverseProxy(option HTTPReverseProxyOptions, vhostRouter *Routers) *
 					req.Header.Set(k, v)
 				}
 			} else {
-				req.URL.Host = req.Host
+				// No route matched: the request will be answered with the not-found page when the dial finds no
+				// route. It must not be keyed by the Host header it carries: a header spelled like the key of a
+				// real route would let the transport reuse that route's idle connection without any check.
+				req.URL.Host = "no-route.invalid"
 			}
 		},
 		ModifyResponse: func(r *http.Response) error {
